@@ -97,7 +97,8 @@ structure Inv (s : State) : Prop where
   /-- an open file is the arena entry of its key -/
   openIn : ∀ r, (s.rc r).fileOpen = true → s.arena (s.rc r).key = some r
   /-- a flight that is past a Load miss owns its key: nothing is stored under it -/
-  missNone : ∀ k f, s.flight k = some f → (f.phase = .missed ∨ f.phase = .fetched) → s.arena k = none
+  missNone : ∀ k f, s.flight k = some f →
+    (f.phase = .missed ∨ f.phase = .requesting ∨ f.phase = .fetched) → s.arena k = none
   flightRes : ∀ k f r, s.flight k = some f → resultOf f.phase = some (some r) →
     r < s.nrc ∧ (s.rc r).key = k
   taskKey : ∀ p ∈ s.tasks, ∀ k r, p.rcOf = some (k, r) → r < s.nrc ∧ (s.rc r).key = k
@@ -166,7 +167,7 @@ theorem inv_setTask {s : State} (h : Inv s) {t : Nat} {q p' : Pc} (ht : s.tasks[
 /-! ### transitions that only change one flight -/
 
 theorem inv_setFlight {s : State} (h : Inv s) (k : Nat) (f' : Flight) (hits' : Nat → Nat)
-    (c1 : (f'.phase = .missed ∨ f'.phase = .fetched) → s.arena k = none)
+    (c1 : (f'.phase = .missed ∨ f'.phase = .requesting ∨ f'.phase = .fetched) → s.arena k = none)
     (c2 : ∀ r, resultOf f'.phase = some (some r) → r < s.nrc ∧ (s.rc r).key = k)
     (c3 : ∀ f r, s.flight k = some f → resultOf f.phase = some (some r) →
       resultOf f'.phase = some (some r)) :
@@ -520,7 +521,7 @@ theorem inv_fstore {s : State} (h : Inv s) {k : Nat} {f : Flight} (hf : s.flight
     s.arena k = none ∧
     Inv { setPhase s k f (.stored s.nrc) with
             nrc := s.nrc + 1, rc := upd s.rc s.nrc ⟨k, 0, true⟩, arena := upd s.arena k (some s.nrc) } := by
-  have hnone : s.arena k = none := h.missNone k f hf (Or.inr hph)
+  have hnone : s.arena k = none := h.missNone k f hf (Or.inr (Or.inr hph))
   refine ⟨hnone, ?_⟩
   have hnoref : ∀ p ∈ s.tasks, p.refOn s.nrc = false := by
     intro p hp
@@ -773,7 +774,7 @@ theorem inv_step {s : State} (h : Inv s) (op : Op) : Inv (step s op).1 := by
           (by intro k' hk'; cases hk'; rw [hf]; simp) (by intro k r hq; cases hq)
       · rename_i hf
         have h1 : Inv { s with flight := upd s.flight k (some ⟨t, .begun, false⟩), hits := s.hits } :=
-          inv_setFlight h k ⟨t, .begun, false⟩ s.hits (by intro hp; rcases hp with hp | hp <;> cases hp)
+          inv_setFlight h k ⟨t, .begun, false⟩ s.hits (by intro hp; rcases hp with hp | hp | hp <;> cases hp)
             (by intro r hr; simp [resultOf] at hr) (by intro f r hf'; rw [hf] at hf'; cases hf')
         exact inv_setTask (s := { s with flight := upd s.flight k (some ⟨t, .begun, false⟩), hits := s.hits })
           h1 ht (by intro r; rfl) (by intro k r hp; cases hp) (by intro r hp; cases hp)
@@ -793,7 +794,7 @@ theorem inv_step {s : State} (h : Inv s) (op : Op) : Inv (step s op).1 := by
         · split
           · rename_i r ha
             exact inv_setFlight h k { f with phase := .hit r } s.hits
-              (by intro hp; rcases hp with hp | hp <;> cases hp)
+              (by intro hp; rcases hp with hp | hp | hp <;> cases hp)
               (by intro r' hr; simp only [resultOf, Option.some.injEq] at hr; subst hr
                   exact ⟨(h.arenaOk k r ha).1, (h.arenaOk k r ha).2.1⟩)
               (by intro f' r' hf' hr; exact absurd (c3 f' r' hf' hr) id)
@@ -803,7 +804,7 @@ theorem inv_step {s : State} (h : Inv s) (op : Op) : Inv (step s op).1 := by
               (by intro r' hr; simp [resultOf] at hr)
               (by intro f' r' hf' hr; exact absurd (c3 f' r' hf' hr) id)
         · exact inv_setFlight h k { f with phase := .failed } s.hits
-            (by intro hp; rcases hp with hp | hp <;> cases hp)
+            (by intro hp; rcases hp with hp | hp | hp <;> cases hp)
             (by intro r' hr; simp [resultOf] at hr)
             (by intro f' r' hf' hr; exact absurd (c3 f' r' hf' hr) id)
       · exact h
@@ -821,7 +822,7 @@ theorem inv_step {s : State} (h : Inv s) (op : Op) : Inv (step s op).1 := by
           rw [hph] at hr; simp [resultOf] at hr
         split
         · exact inv_setFlight h k { f with phase := .failed } s.hits
-            (by intro hp; rcases hp with hp | hp <;> cases hp)
+            (by intro hp; rcases hp with hp | hp | hp <;> cases hp)
             (by intro r' hr; simp [resultOf] at hr)
             (by intro f' r' hf' hr; exact absurd (c3 f' r' hf' hr) id)
         · split
@@ -830,7 +831,56 @@ theorem inv_step {s : State} (h : Inv s) (op : Op) : Inv (step s op).1 := by
               (by intro r' hr; simp [resultOf] at hr)
               (by intro f' r' hf' hr; exact absurd (c3 f' r' hf' hr) id)
           · exact inv_setFlight h k { f with phase := .failed } (upd s.hits k (s.hits k + 1))
-              (by intro hp; rcases hp with hp | hp <;> cases hp)
+              (by intro hp; rcases hp with hp | hp | hp <;> cases hp)
+              (by intro r' hr; simp [resultOf] at hr)
+              (by intro f' r' hf' hr; exact absurd (c3 f' r' hf' hr) id)
+      · exact h
+    · exact h
+  | freq k =>
+    simp only [step, stepG]
+    split
+    · rename_i f hf
+      split
+      · rename_i hph
+        have hnone : s.arena k = none := h.missNone k f hf (Or.inl hph)
+        have c3 : ∀ (f' : Flight) (r : Nat), s.flight k = some f' → resultOf f'.phase = some (some r) → False := by
+          intro f' r hf' hr
+          rw [hf] at hf'; cases hf'
+          rw [hph] at hr; simp [resultOf] at hr
+        split
+        · exact inv_setFlight h k { f with phase := .failed } s.hits
+            (by intro hp; rcases hp with hp | hp | hp <;> cases hp)
+            (by intro r' hr; simp [resultOf] at hr)
+            (by intro f' r' hf' hr; exact absurd (c3 f' r' hf' hr) id)
+        · exact inv_setFlight h k { f with phase := .requesting } (upd s.hits k (s.hits k + 1))
+            (by intro _; exact hnone)
+            (by intro r' hr; simp [resultOf] at hr)
+            (by intro f' r' hf' hr; exact absurd (c3 f' r' hf' hr) id)
+      · exact h
+    · exact h
+  | fbody k srvOk =>
+    simp only [step, stepG]
+    split
+    · rename_i f hf
+      split
+      · rename_i hph
+        have hnone : s.arena k = none := h.missNone k f hf (Or.inr (Or.inl hph))
+        have c3 : ∀ (f' : Flight) (r : Nat), s.flight k = some f' → resultOf f'.phase = some (some r) → False := by
+          intro f' r hf' hr
+          rw [hf] at hf'; cases hf'
+          rw [hph] at hr; simp [resultOf] at hr
+        split
+        · exact inv_setFlight h k { f with phase := .failed } s.hits
+            (by intro hp; rcases hp with hp | hp | hp <;> cases hp)
+            (by intro r' hr; simp [resultOf] at hr)
+            (by intro f' r' hf' hr; exact absurd (c3 f' r' hf' hr) id)
+        · split
+          · exact inv_setFlight h k { f with phase := .fetched } s.hits
+              (by intro _; exact hnone)
+              (by intro r' hr; simp [resultOf] at hr)
+              (by intro f' r' hf' hr; exact absurd (c3 f' r' hf' hr) id)
+          · exact inv_setFlight h k { f with phase := .failed } s.hits
+              (by intro hp; rcases hp with hp | hp | hp <;> cases hp)
               (by intro r' hr; simp [resultOf] at hr)
               (by intro f' r' hf' hr; exact absurd (c3 f' r' hf' hr) id)
       · exact h
